@@ -129,6 +129,7 @@ func load(rel string) (*pkgInfo, error) {
 		Types: map[ast.Expr]types.TypeAndValue{},
 		Defs:  map[*ast.Ident]types.Object{},
 		Uses:  map[*ast.Ident]types.Object{},
+		Selections: map[*ast.SelectorExpr]*types.Selection{},
 	}
 	var firstErr error
 	conf := types.Config{Importer: srcImporter{}, Error: func(err error) {
@@ -175,6 +176,7 @@ type request struct {
 	Pkgs    []string    `json:"pkgs"` // scanned non-recursively
 	Structs []structReq `json:"structs"`
 	Resets  []resetReq  `json:"resets"`
+	IRWrite []string    `json:"irwrite_dirs"` // packages (recursive) scanned for writes into ir-typed shared storage
 }
 
 func main() {
@@ -238,6 +240,17 @@ func main() {
 		walks = append(walks, mapWalks(p)...)
 		globals = append(globals, pkgGlobals(p)...)
 	}
+	var irw []any
+	irSeen := map[string]bool{}
+	for _, d := range allDirs {
+		for _, want := range rq.IRWrite {
+			if (d == want || strings.HasPrefix(d, want+"/")) && !irSeen[d] {
+				irSeen[d] = true
+				irw = append(irw, irWrites(pkgs[d])...)
+			}
+		}
+	}
+	out["irwrites"] = irw
 	out["mapwalks"] = walks
 	out["globals"] = globals
 	var scanned []string
@@ -852,8 +865,10 @@ func isConstLike(p *pkgInfo, e ast.Expr) bool {
 	return false
 }
 
-// callsIn reports whether e contains a function/method call other than
-// conversions, len/cap/min/max and map-typed index reads.
+// impureCall returns the first call inside e that is not known to be free of
+// side effects: conversions, len/cap/min/max/make/new, functions of the scanned
+// packages that are read-only by readOnly (below), and a few standard-library
+// functions are accepted.
 func impureCall(p *pkgInfo, e ast.Node) string {
 	bad := ""
 	ast.Inspect(e, func(n ast.Node) bool {
@@ -861,19 +876,275 @@ func impureCall(p *pkgInfo, e ast.Node) string {
 		if !ok || bad != "" {
 			return bad == ""
 		}
-		if tv, ok := p.info.Types[c.Fun]; ok && tv.IsType() {
-			return true // conversion
-		}
-		if id, ok := c.Fun.(*ast.Ident); ok {
-			switch id.Name {
-			case "len", "cap", "min", "max", "make", "new":
-				return true
-			}
+		if callIsPure(p, c) {
+			return true
 		}
 		bad = src(c.Fun)
 		return false
 	})
 	return bad
+}
+
+var pureStd = map[string]bool{
+	"math": true, "math/bits": true, "strings": true, "strconv": true, "unicode": true, "unicode/utf8": true,
+	"fmt.Sprintf": true, "fmt.Sprint": true, "fmt.Errorf": true, "errors.New": true,
+}
+
+func calleeOf(p *pkgInfo, c *ast.CallExpr) *types.Func {
+	switch f := c.Fun.(type) {
+	case *ast.Ident:
+		if fn, ok := p.info.Uses[f].(*types.Func); ok {
+			return fn
+		}
+	case *ast.SelectorExpr:
+		if sel, ok := p.info.Selections[f]; ok {
+			if fn, ok := sel.Obj().(*types.Func); ok {
+				if _, isIface := sel.Recv().Underlying().(*types.Interface); isIface {
+					return nil // dynamic dispatch: unknown callee
+				}
+				return fn
+			}
+			return nil
+		}
+		if fn, ok := p.info.Uses[f.Sel].(*types.Func); ok { // pkg.Func
+			return fn
+		}
+	}
+	return nil
+}
+
+func callIsPure(p *pkgInfo, c *ast.CallExpr) bool {
+	if tv, ok := p.info.Types[c.Fun]; ok && tv.IsType() {
+		return true // conversion
+	}
+	if id, ok := c.Fun.(*ast.Ident); ok {
+		if _, isBuiltin := p.info.Uses[id].(*types.Builtin); isBuiltin {
+			switch id.Name {
+			case "len", "cap", "min", "max", "make", "new", "panic", "real", "imag", "complex":
+				return true
+			}
+			return false
+		}
+	}
+	fn := calleeOf(p, c)
+	if fn == nil || fn.Pkg() == nil {
+		return false
+	}
+	path := fn.Pkg().Path()
+	if path == modPath || strings.HasPrefix(path, modPath+"/") {
+		return readOnly(fn)
+	}
+	if sig, ok := fn.Type().(*types.Signature); ok && sig.Recv() != nil {
+		return false // methods of standard-library types (Builder.WriteString, ...) may mutate their receiver
+	}
+	return pureStd[path] || pureStd[path+"."+fn.Name()]
+}
+
+// readOnly: a function of the scanned packages whose body, syntactically,
+// writes only its own local variables (plain identifiers declared inside it,
+// or elements/fields of locals freshly made inside it), starts no goroutine,
+// and calls only functions that are pure by callIsPure.  Recursion is assumed
+// read-only (greatest fixed point).  This is an approximation: aliasing of a
+// fresh local with shared storage through a later assignment is not tracked.
+var roState = map[*types.Func]int{} // 1 = in progress / assumed, 2 = read-only, 3 = not
+var funcIndex map[*types.Func]struct {
+	p  *pkgInfo
+	fd *ast.FuncDecl
+}
+
+func buildFuncIndex() {
+	funcIndex = map[*types.Func]struct {
+		p  *pkgInfo
+		fd *ast.FuncDecl
+	}{}
+	for _, p := range pkgs {
+		if p == nil {
+			continue
+		}
+		for _, f := range p.files {
+			for _, d := range f.Decls {
+				if fd, ok := d.(*ast.FuncDecl); ok && fd.Body != nil {
+					if fn, ok := p.info.Defs[fd.Name].(*types.Func); ok {
+						funcIndex[fn] = struct {
+							p  *pkgInfo
+							fd *ast.FuncDecl
+						}{p, fd}
+					}
+				}
+			}
+		}
+	}
+}
+
+func readOnly(fn *types.Func) bool {
+	fn = fn.Origin()
+	switch roState[fn] {
+	case 1, 2:
+		return true
+	case 3:
+		return false
+	}
+	if funcIndex == nil || len(funcIndex) == 0 {
+		buildFuncIndex()
+	}
+	ent, ok := funcIndex[fn]
+	if !ok {
+		buildFuncIndex() // packages may have been loaded since
+		ent, ok = funcIndex[fn]
+		if !ok {
+			roState[fn] = 3
+			return false
+		}
+	}
+	roState[fn] = 1
+	okRO := bodyReadOnly(ent.p, ent.fd)
+	if okRO {
+		roState[fn] = 2
+	} else {
+		roState[fn] = 3
+		// conservative: results assumed during this computation that depended on fn being read-only are
+		// not revisited; to stay sound, forget every "assumed" entry
+		for k, v := range roState {
+			if v == 1 {
+				delete(roState, k)
+			}
+		}
+	}
+	return okRO
+}
+
+func bodyReadOnly(p *pkgInfo, fd *ast.FuncDecl) bool {
+	inFunc := func(o types.Object) bool {
+		return o != nil && o.Pos() >= fd.Pos() && o.Pos() <= fd.End()
+	}
+	fresh := map[types.Object]bool{}
+	ast.Inspect(fd.Body, func(n ast.Node) bool {
+		switch x := n.(type) {
+		case *ast.AssignStmt:
+			if x.Tok == token.DEFINE && len(x.Lhs) == len(x.Rhs) {
+				for k, l := range x.Lhs {
+					id, ok := l.(*ast.Ident)
+					if !ok {
+						continue
+					}
+					isFresh := false
+					switch r := x.Rhs[k].(type) {
+					case *ast.CompositeLit:
+						isFresh = true
+					case *ast.CallExpr:
+						if f, ok := r.Fun.(*ast.Ident); ok && (f.Name == "make" || f.Name == "new") {
+							isFresh = true
+						}
+					}
+					if isFresh {
+						if o := p.info.Defs[id]; o != nil {
+							fresh[o] = true
+						}
+					}
+				}
+			}
+		case *ast.DeclStmt:
+			if gd, ok := x.Decl.(*ast.GenDecl); ok {
+				for _, sp := range gd.Specs {
+					if vs, ok := sp.(*ast.ValueSpec); ok && len(vs.Values) == 0 {
+						for _, id := range vs.Names {
+							if o := p.info.Defs[id]; o != nil {
+								fresh[o] = true
+							}
+						}
+					}
+				}
+			}
+		}
+		return true
+	})
+	var localTarget func(e ast.Expr, top bool) bool
+	localTarget = func(e ast.Expr, top bool) bool {
+		switch x := e.(type) {
+		case *ast.Ident:
+			if x.Name == "_" {
+				return true
+			}
+			o := p.info.Uses[x]
+			if o == nil {
+				o = p.info.Defs[x]
+			}
+			if !inFunc(o) {
+				return false
+			}
+			if top {
+				return true // plain local variable (or parameter: a copy)
+			}
+			return fresh[o]
+		case *ast.IndexExpr:
+			return localTarget(x.X, false)
+		case *ast.SelectorExpr:
+			// field of a by-value local struct
+			if tv, ok := p.info.Types[x.X]; ok && tv.Type != nil {
+				if _, isPtr := tv.Type.Underlying().(*types.Pointer); isPtr {
+					return false
+				}
+			}
+			if id, ok := x.X.(*ast.Ident); ok {
+				o := p.info.Uses[id]
+				return inFunc(o)
+			}
+			return localTarget(x.X, false)
+		case *ast.ParenExpr:
+			return localTarget(x.X, top)
+		}
+		return false
+	}
+	ok := true
+	ast.Inspect(fd.Body, func(n ast.Node) bool {
+		if !ok {
+			return false
+		}
+		switch x := n.(type) {
+		case *ast.AssignStmt:
+			if x.Tok != token.DEFINE {
+				for _, l := range x.Lhs {
+					if !localTarget(l, true) {
+						ok = false
+					}
+				}
+			}
+		case *ast.IncDecStmt:
+			if !localTarget(x.X, true) {
+				ok = false
+			}
+		case *ast.RangeStmt:
+			if x.Tok == token.ASSIGN {
+				if x.Key != nil && !localTarget(x.Key, true) {
+					ok = false
+				}
+				if x.Value != nil && !localTarget(x.Value, true) {
+					ok = false
+				}
+			}
+		case *ast.GoStmt, *ast.SendStmt, *ast.DeferStmt:
+			ok = false
+		case *ast.CallExpr:
+			if id, isId := x.Fun.(*ast.Ident); isId {
+				if _, isBuiltin := p.info.Uses[id].(*types.Builtin); isBuiltin {
+					switch id.Name {
+					case "append":
+						return true // result matters only where it is assigned (checked above)
+					case "delete", "clear", "copy":
+						if len(x.Args) == 0 || !localTarget(x.Args[0], false) {
+							ok = false
+						}
+						return true
+					}
+				}
+			}
+			if !callIsPure(p, x) {
+				ok = false
+			}
+		}
+		return ok
+	})
+	return ok
 }
 
 func classify(p *pkgInfo, fd *ast.FuncDecl, rs *ast.RangeStmt) (string, string, []string) {
@@ -1388,6 +1659,202 @@ func pkgGlobals(p *pkgInfo) []any {
 	for _, g := range order {
 		sort.Strings(g.Writes)
 		out = append(out, g)
+	}
+	return out
+}
+
+// ------------------------------------------------------------------ writes into the IR
+
+// irWrites lists assignments (and ++/--, clear, delete, append-assign) whose
+// target lies in storage of a type declared in package ir that is reached
+// through a pointer, slice element or map (i.e. storage that may belong to the
+// caller's module), e.g. `gv.Binding = x` with gv *ir.GlobalVariable,
+// `m.Types[i].Name = s`, `fn.Body[i] = st`.  Writes to a local by-value copy
+// (`var t ir.Type; t.Name = ..`) and to fields of non-ir structs are not listed.
+func irWrites(p *pkgInfo) []any {
+	if p == nil {
+		return nil
+	}
+	isIR := func(t types.Type) bool {
+		for {
+			switch u := t.(type) {
+			case *types.Pointer:
+				t = u.Elem()
+				continue
+			case *types.Slice:
+				t = u.Elem()
+				continue
+			case *types.Array:
+				t = u.Elem()
+				continue
+			case *types.Named:
+				if u.Obj().Pkg() == nil || u.Obj().Pkg().Path() != modPath+"/ir" {
+					return false
+				}
+				switch u.Underlying().(type) {
+				case *types.Struct, *types.Interface, *types.Slice, *types.Map:
+					return true // handles and enums (basic underlying types) are values, not storage
+				}
+				return false
+			}
+			return false
+		}
+	}
+	typeOf := func(e ast.Expr) types.Type {
+		if tv, ok := p.info.Types[e]; ok {
+			return tv.Type
+		}
+		return nil
+	}
+	// shared reports whether the storage denoted by e is reached through a pointer/slice/map whose
+	// element/pointee type is declared in ir.
+	var shared func(e ast.Expr) bool
+	shared = func(e ast.Expr) bool {
+		switch x := e.(type) {
+		case *ast.SelectorExpr:
+			t := typeOf(x.X)
+			if t == nil {
+				return false
+			}
+			if pt, ok := t.Underlying().(*types.Pointer); ok && isIR(pt.Elem()) {
+				return true
+			}
+			return shared(x.X)
+		case *ast.IndexExpr:
+			t := typeOf(x.X)
+			if t == nil {
+				return false
+			}
+			switch u := t.Underlying().(type) {
+			case *types.Slice:
+				if isIR(u.Elem()) || isIR(t) {
+					return true
+				}
+			case *types.Map:
+				if isIR(t) {
+					return true
+				}
+			case *types.Pointer:
+				if isIR(u.Elem()) {
+					return true
+				}
+			}
+			return shared(x.X)
+		case *ast.StarExpr:
+			t := typeOf(x.X)
+			if t != nil && isIR(t) {
+				return true
+			}
+			return shared(x.X)
+		case *ast.ParenExpr:
+			return shared(x.X)
+		}
+		return false
+	}
+	var out []any
+	for i, f := range p.files {
+		for _, d := range f.Decls {
+			fd, ok := d.(*ast.FuncDecl)
+			if !ok || fd.Body == nil {
+				continue
+			}
+			fname := fd.Name.Name
+			if fd.Recv != nil && len(fd.Recv.List) > 0 {
+				t := fd.Recv.List[0].Type
+				if st, ok := t.(*ast.StarExpr); ok {
+					t = st.X
+				}
+				fname = src(t) + "." + fname
+			}
+			// slices/maps freshly made in this function are private storage
+			fresh := map[types.Object]bool{}
+			ast.Inspect(fd.Body, func(n ast.Node) bool {
+				switch x := n.(type) {
+				case *ast.AssignStmt:
+					if x.Tok == token.DEFINE && len(x.Lhs) == len(x.Rhs) {
+						for k, l := range x.Lhs {
+							id, ok := l.(*ast.Ident)
+							if !ok {
+								continue
+							}
+							isFresh := false
+							switch r := x.Rhs[k].(type) {
+							case *ast.CompositeLit:
+								isFresh = true
+							case *ast.CallExpr:
+								if f, ok := r.Fun.(*ast.Ident); ok && (f.Name == "make" || f.Name == "new") {
+									isFresh = true
+								}
+							case *ast.UnaryExpr:
+								if _, ok := r.X.(*ast.CompositeLit); ok && r.Op == token.AND {
+									isFresh = true
+								}
+							}
+							if isFresh {
+								if o := p.info.Defs[id]; o != nil {
+									fresh[o] = true
+								}
+							}
+						}
+					}
+				case *ast.DeclStmt:
+					if gd, ok := x.Decl.(*ast.GenDecl); ok {
+						for _, sp := range gd.Specs {
+							if vs, ok := sp.(*ast.ValueSpec); ok && len(vs.Values) == 0 {
+								for _, id := range vs.Names {
+									if o := p.info.Defs[id]; o != nil {
+										fresh[o] = true
+									}
+								}
+							}
+						}
+					}
+				}
+				return true
+			})
+			// directRoot: e = x[i][j]... or x.f (by-value) with x a fresh local: private
+			var directRoot func(e ast.Expr) types.Object
+			directRoot = func(e ast.Expr) types.Object {
+				switch x := e.(type) {
+				case *ast.Ident:
+					return p.info.Uses[x]
+				case *ast.IndexExpr:
+					return directRoot(x.X)
+				case *ast.ParenExpr:
+					return directRoot(x.X)
+				}
+				return nil
+			}
+			note := func(e ast.Expr, how string) {
+				if _, isIdent := e.(*ast.Ident); isIdent {
+					return
+				}
+				if o := directRoot(e); o != nil && fresh[o] {
+					return
+				}
+				if shared(e) {
+					out = append(out, map[string]any{"file": p.names[i], "line": fset.Position(e.Pos()).Line, "func": fname, "target": src(e), "how": how})
+				}
+			}
+			ast.Inspect(fd.Body, func(n ast.Node) bool {
+				switch x := n.(type) {
+				case *ast.AssignStmt:
+					if x.Tok == token.DEFINE {
+						return true
+					}
+					for _, l := range x.Lhs {
+						note(l, "assign")
+					}
+				case *ast.IncDecStmt:
+					note(x.X, "incdec")
+				case *ast.CallExpr:
+					if id, ok := x.Fun.(*ast.Ident); ok && (id.Name == "clear" || id.Name == "delete") && len(x.Args) > 0 {
+						note(x.Args[0], id.Name)
+					}
+				}
+				return true
+			})
+		}
 	}
 	return out
 }
